@@ -49,6 +49,14 @@ for pid in args:
                   'exercised by earlier changes; prefer those, and prefer a change whose effect needs two places of the code to '
                   'cooperate (e.g. a helper whose contract is changed subtly while its callers still rely on the old contract), '
                   'or a state that survives from an earlier call.')
+        if rnd >= 4:
+            t += ('\n\nFor this round make the two changes of two different KINDS: (A) one confined to a helper that several elements '
+                  'share (for example in lena/flow/functions.py, lena/context/functions.py, lena/core/functions.py, '
+                  'lena/core/check_sequence_type.py, lena/math/meshes.py, lena/structures/hist_functions.py, or a private helper '
+                  'method of the class) so that the property breaks through its callers; (B) one that keeps the local meaning of '
+                  'every line but changes WHEN or HOW OFTEN something happens: a statement moved across a loop, a try, a yield or a '
+                  'condition; something hoisted out of or sunk into a loop; a cache or memo added; an early exit added or removed; a '
+                  'default changed.')
         if prev:
             t += ('\n\nEarlier changes made by other developers for this exercise were: '
                   + ' | '.join(prev) + ' -- choose different functions / mechanisms than those.')
